@@ -144,7 +144,8 @@ def run(run):
     for t in ["{{#switch:|1=z}}", "{{#if:|1=z}}", "{{tpl||1=z}}", "{|\n| [http://x.y/''x'' ''|| c]\n|}"]:
         texts.append(t); klass.append("corpus")
     for t in ["==<pre>x==\n", "== a <pre> b ==\ntext", "==<pre>==\n</pre>", "=== x<pre>y</pre> ===\n", "==<nowiki>x</nowiki>==\n",
-              "== {{a|x}} ==\n", "==[[a]]==\n* i", "==\n", "== ==\n", "=====\n", "== {{\nfoo}} ==", "== [[a|\nb]] ==\n"]:
+              "== {{a|x}} ==\n", "==[[a]]==\n* i", "==\n", "== ==\n", "=====\n", "== {{\nfoo}} ==", "== [[a|\nb]] ==\n",
+              "<math>\n=</math>=", "<div>\n== a </div> ==\n", "<b>x\n=== t</b> ===\n"]:
         texts.append(t); klass.append("corpus")
     for t in ["a" + MAGIC + "b", "{{X" + MAGIC + "}}", "[[" + MAGIC + "]]", "<b>" + MAGIC, "* " + MAGIC + "\n"]:
         texts.append(t); klass.append("placeholder")
@@ -196,6 +197,15 @@ def run(run):
                 ln.lstrip().startswith("=") and (ln.count("{{") > ln.count("}}") or ln.count("[[") > ln.count("]]"))
                 for ln in texts[i].split("\n")):
             extra = ":heading-title-spans-lines"
+        if not extra and "level" in names:
+            # a heading inside an HTML element whose end tag stands in the heading's title
+            pos = 0
+            for ln in texts[i].split("\n"):
+                if ln.lstrip().startswith("="):
+                    for tag in re.findall(r"</([a-zA-Z0-9]+)", ln):
+                        if re.search(r"<" + tag + r"\b", texts[i][:pos], flags=re.I):
+                            extra = ":heading-title-holds-end-tag-of-enclosing-element"
+                pos += len(ln) + 1
         run.property_failure("c01:not-well-formed:%s%s" % (names, extra),
                              "parse(%r, %r) returned a tree violating clause(s) %s" % (texts[i][:300], kw, names),
                              {"text": texts[i], "kw": kw})
